@@ -5,6 +5,7 @@ mod classify;
 mod clicheck;
 mod convert;
 mod faults;
+mod library;
 mod geom;
 mod jsonfmt;
 mod locks;
@@ -46,6 +47,7 @@ fn worker(kind: &str) {
             "jsonfmt" => jsonfmt::worker_handle(&req),
             "bdlparse" => bdlparse::worker_handle(&req),
             "faults" => faults::worker_handle(&req),
+            "library" => library::worker_handle(&req),
             _ => serde_json::json!({"error": "unknown worker kind"}),
         };
         util::answer(&ans);
@@ -76,6 +78,7 @@ fn main() {
         "jsonfmt" => jsonfmt::main_jsonfmt(&args),
         "bdlparse" => bdlparse::main_bdlparse(&args),
         "faults" => faults::main_faults(&args),
+        "library" => library::main_library(&args),
         "locks" => locks::main_locks(&args),
         "locks-one" => locks::main_one(&args),
         other => {
